@@ -207,7 +207,10 @@ def check(run):
                 run.ev()
                 cur_c = set(np.concatenate([np.asarray(g[t]['id'])[: g[t]['Ncent']] for t in g]).tolist())
                 cur_s = set(map(tuple, np.concatenate([np.stack([np.asarray(g[t]['x'])[g[t]['Ncent'] :], np.asarray(g[t]['y'])[g[t]['Ncent'] :]], axis=1) for t in g]).tolist()))
-                if prev is not None and not (prev[0] <= cur_c and prev[1] <= cur_s):
+                # ELG satellite widths depend on which central the host carries (conformity branch of the package's
+                # rule, which also drops the shear term), and that changes with ic: only centrals are nested then
+                sat_nested = 'ELG' not in tr
+                if prev is not None and not (prev[0] <= cur_c and (prev[1] <= cur_s or not sat_nested)):
                     run.violation('hod-selection-not-nested-in-ic', dict(ic_factor=f, **desc))
                     break
                 prev = (cur_c, cur_s)
